@@ -55,7 +55,13 @@ mod proofs {
         assert!(matches!(Cast::<Val>::cast(a), Val::Integer(x) if x == a as i64), "[val-u8] integer value preserved");
         assert!(matches!(Cast::<Val>::cast(b), Val::Integer(x) if x == b as i64), "[val-u16] integer value preserved");
         assert!(matches!(Cast::<Val>::cast(c), Val::Integer(x) if x == c as i64), "[val-u32] integer value preserved");
-        assert!(matches!(Cast::<Val>::cast(d), Val::Integer(x) if x == d), "[val-i64] integer value preserved");
+        // i64::MAX is the engine's reserved integer NULL marker (C01); like the float marker and like the reverse cast
+        // (Val::Null -> I64_NULL) it has to come out as Val::Null, or a NULL of one partition meets a number in the merge
+        if d == I64_NULL {
+            assert!(matches!(Cast::<Val>::cast(d), Val::Null), "[val-i64-null] the integer NULL marker becomes Val::Null");
+        } else {
+            assert!(matches!(Cast::<Val>::cast(d), Val::Integer(x) if x == d), "[val-i64] integer value preserved");
+        }
     }
 
     #[kani::proof]
